@@ -93,6 +93,7 @@ def stream_spec(E, X0, dec, yields):
 
 
 @harness('c04.receive_data[stream]', ['C04', 'C12', 'C01'], functions=[RECV, FP + '.__init__'], replay='c04_stream',
+         fallback=r'^c04\.chunked_history\.bounded',
          assumptions=['parse_or_ignore is abstracted by its weakest contract here (returns a frame / returns None / raises an Exception); '
                       'its field contract is C02, its totality C12',
                       'L-SPLIT: induction over the number of records (meta-level) on top of the mechanised step lemma c04.lemma'])
@@ -277,3 +278,66 @@ def msg_next(E):
     E.run_generator(g, lambda v: out.append(v))
     E.prove('msg:yields_exactly_the_queued_frame', (not is_exc) and len(out) == 1 and out[0] is item)
     E.prove('msg:next_item_left_in_queue', q.attrs['_queue'] == [other])
+
+
+# --------------------------------------------------------------------------- chunk independence, directly (bounded, no loop contract)
+
+def _chunked_history(nchunks, maxtotal):
+    """BOUNDED stand-in that does not depend on the shape of the parser's loop: a parser made by the real __init__ is fed
+    `nchunks` symbolic reads (total length <= maxtotal, so at most maxtotal//3 records); every loop is unrolled.  The
+    clause is the property itself: what was handed to the decoder / yielded over all reads, and what is left in the
+    parser, are exactly what the length-prefix splitter gives for the concatenation of the reads."""
+    def run(E):
+        parser = E.call(E.lookup(FP), [])
+        chunks = [E.input('read[%d]' % i, E.fresh_bytes('d%d' % i, 0, maxtotal)) for i in range(nchunks)]
+        total = sum((c.len_term() for c in chunks[1:]), chunks[0].len_term())
+        E.assume(total <= maxtotal)
+        dec = DecStub(E)
+        E.stubs[POI] = dec
+        yields = []
+        E.unroll_limit = maxtotal + 2
+        for c in chunks:
+            g = E.call(E.getattr(parser, 'receive_data'), [c])
+            try:
+                E.run_generator(g, lambda v: yields.append(v))
+            except PyExc as e:
+                E.cover('escaped')
+                E.prove('chunked:no_exception_escapes_the_frame_generator', False)
+                return
+        E.cover('all-reads-processed')
+        X = chunks[0]
+        for c in chunks[1:]:
+            X = M.b_concat(X, c)
+        # the splitter specification, unrolled
+        recs = []
+        pos = z3.IntVal(0)
+        for _ in range(maxtotal // 3 + 1):
+            rest = X.len_term() - pos
+            if not E.decide(mk_bool(z3.And(rest >= 3, rest >= 3 + L_at(X, pos))), 'spec-record'):
+                break
+            L = L_at(X, pos)
+            recs.append((pos + 3, pos + 3 + L))
+            pos = pos + 3 + L
+        P = E.prove
+        P('chunked:one_decode_per_record_of_the_whole_stream[none lost, none duplicated]', len(dec.calls) == len(recs))
+        if len(dec.calls) == len(recs):
+            for i, ((a, b), (arg, kind)) in enumerate(zip(recs, dec.calls)):
+                P('chunked:record_%d_is_exactly_the_delimited_bytes' % i, M.b_eq_goal(E, arg, M.b_slice(E, X, mk_int(a), mk_int(b)), 'r%d' % i))
+            want = []
+            for i, (arg, kind) in enumerate(dec.calls):
+                if kind == 0:
+                    want.append('frame:dec(record#%d)' % (i + 1))
+                elif kind == 2:
+                    want.append('invalid')
+            got = [('frame:' + str(y.ident)) if isinstance(y, SOpaque) else ('invalid' if isinstance(y, SObj) and y.cls.name == 'InvalidFrame' else repr(y))
+                   for y in yields]
+            P('chunked:frames_come_out_in_order_undecodable_records_give_at_most_a_marker', got == want)
+        P('chunked:the_unconsumed_rest_stays_buffered', M.b_eq_goal(E, lift_bytes(parser.attrs['_buffer']), M.b_slice(E, X, mk_int(pos), None), 'rest'))
+    return run
+
+
+for _n, _t in ((2, 8), (3, 7)):
+    harness('c04.chunked_history.bounded[reads=%d,bytes<=%d]' % (_n, _t), ['C04', 'C12'], kind='bounded', functions=[RECV, FP + '.__init__'],
+            replay='c04_chunks', max_paths=60000,
+            assumptions=['BOUNDED stand-in: %d reads with a total of at most %d bytes (symbolic content and split points), loops unrolled; '
+                         'parse_or_ignore through its weakest contract' % (_n, _t)])(_chunked_history(_n, _t))
